@@ -27,6 +27,7 @@ func init() {
 		Rules: []string{"DTX(setalg)", "ALIAS", "GUARD(complcycle)"},
 		Run: func(c *Ctx) {
 			ruleSETALG(c)
+			ruleSETEQ(c)
 			ruleALIAS(c, setPkgs)
 			c.MinCount("ALIAS", "util/set.", 4)
 			ruleUNIONCLONE(c)
@@ -48,6 +49,7 @@ func init() {
 			ruleESCAPE(c, pk)
 			ruleCOMPLCYCLE(c)
 			ruleSETALG(c)
+			ruleSETEQ(c)
 		},
 	})
 }
@@ -117,6 +119,20 @@ func init() {
 			ruleALIAS(c, pk)
 			ruleESCAPE(c, pk)
 			ruleRULEACTION(c)
+		},
+	})
+}
+
+func init() {
+	register(&Property{
+		ID: "C24",
+		Explanation: "Decides structural necessary conditions of 'shift-DFA scanners agree with the tables they pack': INTERVAL(bitpack): with field width W read from Pack (target*W, state*W), the accepted number of states K satisfies K*W <= 64, (K-1)*W < 2^W and K <= len(onEoi); actions < A encode as action*2+1 < 2^W; Scan decodes with mask 2^W-1, /W and /2. " +
+			"CONSTAGREE(ascii): the guard on the last symbol-map entry is <= the byte split (128) below which bytes are mapped individually. GUARD(nobacktrack): tables with checkpoints or several start states are rejected (the -1-cell decode and state 0 start are valid only then). GLOBALS: no package-level mutable state in shiftdfa. " +
+			"Not decided: equality of results on all inputs as such.",
+		Rules: []string{"INTERVAL(bitpack)", "CONSTAGREE(ascii)", "GUARD(nobacktrack)", "GLOBALS"},
+		Run: func(c *Ctx) {
+			ruleSHIFTDFA(c)
+			rulePKGGLOBALS(c, "shiftdfa")
 		},
 	})
 }
